@@ -690,7 +690,12 @@ def do_v2_search(req):
     for req2 in ({'kind': 'v2_case', 'threads': [[1, 5, 'proc']], 'pad': 0, 'records': [base_rec.hex()], 'repeat': 1025, 'preload': None},
                  {'kind': 'v2_case', 'threads': [[1, 5, 'proc']], 'pad': 8, 'records': [base_rec.hex()], 'repeat': 3000, 'preload': None},
                  {'kind': 'v2_case', 'threads': [[1, 5, 'proc'], [2, 6, 'x']], 'pad': 0, 'records': [base_rec.hex()], 'is_64bit': 0, 'preload': None},
-                 {'kind': 'v2_case', 'threads': [[1, 5, 'launchd']], 'pad': 16, 'records': [base_rec.hex()] * 2, 'is_64bit': 0, 'preload': None}):
+                 {'kind': 'v2_case', 'threads': [[1, 5, 'launchd']], 'pad': 16, 'records': [base_rec.hex()] * 2, 'is_64bit': 0, 'preload': None},
+                 # boundary words of the thread map: ids with the top bit set, the longest name the field holds, a non-ASCII name
+                 {'kind': 'v2_case', 'threads': [[2 ** 64 - 1, 0xffffffff, 'x' * 19], [2 ** 63, 0x80000000, 'ghost'], [7, 0x7fffffff, ''],
+                                                 [8, 0, 'kernel_task'], [9, 5, 'caf\u00e9']], 'pad': 8, 'records': [base_rec.hex()], 'preload': None},
+                 # a thread id / a process id declared more than once: the later entry wins, per table
+                 {'kind': 'v2_case', 'threads': [[1, 2, 'a'], [3, 2, 'b'], [1, 2, 'c'], [3, 4, 'd']], 'pad': 0, 'records': [base_rec.hex()], 'preload': None}):
         tried += 1
         r = do_v2_case(req2)
         if r['violates']:
@@ -838,7 +843,8 @@ def do_v3_blocks_search(req):
     strings = ['msg a', 'proc', 'msg c']
     while tried < budget:
         ids = rnd.choice([(0, 1, 2), (1, 2, 3), (5, 9, 50), (2, 0, 1)])        # the index numbers its strings as it likes
-        threads = [(rnd.choice([1, 2, 3]), rnd.choice([5, 6]), rnd.choice(['a', 'launchd'])) for _ in range(rnd.randint(0, 3))]
+        threads = [(rnd.choice([1, 2, 3, 2 ** 63, 2 ** 64 - 1]), rnd.choice([5, 6, 0x80000000, 0xffffffff]), rnd.choice(['a', 'launchd', 'x' * 19]))
+                   for _ in range(rnd.randint(0, 3))]
         nrec = rnd.randint(0, 7)
         recs = [_rec64(i) for i in range(nrec)]
         k = rnd.randint(1, 3)
@@ -1324,6 +1330,15 @@ def do_color_search(req):
 
 
 def do_process_column_case(req):
+    import pykdebugparser.pykdebugparser as M
+    real_parser = M.KdBufParser
+    try:
+        return _process_column_case(req)
+    finally:
+        M.KdBufParser = real_parser
+
+
+def _process_column_case(req):
     """the process column of formatted_traces over a stream with every kind of declaring record, against the tables the dump
     declares at each point (model written from the property: thread map, then new-thread / terminate-pid / sampler records)"""
     import struct
@@ -1453,12 +1468,56 @@ def do_format_case(req):
 HANDLERS['process_column_case'] = do_process_column_case
 
 
+def do_declared_dump_case(req):
+    """the process column over real version-2 and version-3 files whose thread maps hold boundary words (ids with the top bit
+    set, the longest name): every line names what the file's own thread map declares for its thread"""
+    import io
+    import struct
+    from spec import container as S
+    from pykdebugparser.pykdebugparser import PyKdebugParser
+    inv = {v: k for k, v in _cached_codes().items()}
+    threads = [(300, 0xffffffff, 'ghost'), (2 ** 63 + 5, 0x80000001, 'big'), (7, 0x7fffffff, 'x' * 19), (8, 0, 'kernel_task'), (9, 5, '')]
+    tids = [t for t, _, _ in threads] + [0x4242]
+    recs = []
+    for i, tid in enumerate(tids):
+        recs.append(struct.pack('<Q32sQIIQ', 10 + 2 * i, bytes(32), tid, inv['BSC_getpid'] | 1, 0, 0))
+        recs.append(struct.pack('<Q32sQIIQ', 11 + 2 * i, struct.pack('<QQQQ', 0, 1, 0, 0), tid, inv['BSC_getpid'] | 2, 0, 0))
+    want = {t: '%s(%d)' % (n, p) for t, p, n in threads}
+    for label, data in (('version-2', S.build_v2(threads, 8, recs)), ('version-3', S.build_v3(threads, [recs], []))):
+        p = PyKdebugParser()
+        p.color = False
+        p.show_timestamp = False
+        p.show_tid = p.show_process = True
+        try:
+            lines = list(p.formatted_traces(io.BytesIO(data)))
+        except BaseException as ex:  # noqa
+            return {'violates': True, 'what': 'formatted_traces of a well-formed %s dump raised %s: %s' % (label, type(ex).__name__, ex)}
+        if len(lines) != len(tids):
+            return {'violates': True, 'what': '%s dump: %d lines for %d system calls' % (label, len(lines), len(tids))}
+        for tid, ln in zip(tids, lines):
+            lead = len('%11d ' % tid)
+            col = ln[lead:lead + 34].rstrip()
+            if tid in want and col != want[tid]:
+                return {'violates': True, 'what': '%s dump declares %s for thread %d, the line reads %r' % (label, want[tid], tid, ln)}
+            if tid not in want and '(' in col and 'rror' not in col:
+                return {'violates': True, 'what': '%s dump never declares thread %d, the line %r attributes it to a process' % (label, tid, ln)}
+    return {'violates': False}
+
+
+HANDLERS['declared_dump_case'] = do_declared_dump_case
+
+
 def do_format_search(req):
     import itertools
     tried = 1
     r = do_process_column_case({})
     if r['violates']:
         r['request'] = {'kind': 'process_column_case'}
+        return {'tried': tried, 'found': r}
+    tried += 1
+    r = do_declared_dump_case({})
+    if r['violates']:
+        r['request'] = {'kind': 'declared_dump_case'}
         return {'tried': tried, 'found': r}
     for which in ('kevent', 'trace', 'callstack'):
         for setting in itertools.product([False, True], repeat=6):
